@@ -310,6 +310,8 @@ def corr_pack(ctx: Ctx, drv):
 
 def run(ctx: Ctx):
     leanproj.check_theorems(ctx, MODULE, THEOREMS)
+    from .registry import THEOREMS_C05B
+    leanproj.check_theorems(ctx, "PyseqmVerif.Properties.C05b", THEOREMS_C05B)
     drv = leanproj.Driver()
     try:
         try:
